@@ -12,9 +12,9 @@ EXPLANATION = (
     "from the YAML).  Because the oracle is independent of rv's reader, a symmetric writer/reader error becomes a counterexample.  Values are symbolic over their documented widths."
 )
 BOUNDS = {"quick": {"types": "all 42 attachable types in a synth file and, for 8 seeded types, inside a project", "values": "every range controller, common/MIDI fields, CMID channel/parameter; enum/bool seeded",
-                    "projects": "header (all fields), pattern lists with symbolic cells, module slots with empties"},
+                    "projects": "header (all fields), pattern lists with symbolic cells, module slots with empties", "CHNK boundary": "MetaModule with 96 user-defined controllers and labels on the last two (highest chunk number 103)"},
           "thorough": {"types": "all 42 in both contexts"}}
-OUTSIDE = ["module-specific payload layouts other than options (C11), sampler records (C16) and MetaModule chunks (C15)", "files with more than 4 modules / 3 patterns"]
+OUTSIDE = ["module-specific payload layouts other than options (C11), sampler records (C16) and the content of MetaModule chunks (C15; the CHNK-count rule itself is checked here at its boundary)", "files with more than 4 modules / 3 patterns"]
 ASSUMPTIONS = ["where the documentation (written for 1.9.4) is silent about newer chunks (BVER, FLGS, SFGS, TGD2, LGEN, SLnK, PFLG/PICO...), the YAML chunk list is the reference"]
 
 SETUP = MSETUP + '''from vf import refformat as RF
